@@ -6,3 +6,4 @@
 
 pub mod err;
 pub mod probe;
+pub mod order;
